@@ -79,6 +79,9 @@ def main():
     known = F.load()
     obligations = 0
     discharged = 0
+    bounded_obl = 0
+    bounded_ok = 0
+    distinct = set()
     violations = []   # (unit, obligation)
     undecided = []
     functions, trusted, samples, bounded, cmds, per_unit = [], [], [], [], [], []
@@ -104,11 +107,16 @@ def main():
         if u.bounded:
             bounded.append({"unit": u.name, "bound": u.bounded, "obligations": len(mine)})
         for o in mine:
+            distinct.add((u.harness, u.entry.split("_")[1] if "_" in u.entry else u.entry, o["description"][:120]))
             if not u.bounded:
                 obligations += 1
+            else:
+                bounded_obl += 1
             if o["status"] == "SUCCESS":
                 if not u.bounded:
                     discharged += 1
+                else:
+                    bounded_ok += 1
             else:
                 violations.append((r, o))
         if mine and len(samples) < 12:
@@ -167,10 +175,18 @@ def main():
     if rc == 0 and undecided:
         rc = 2
 
+    from vlib import props_meta as PM
+    level = PM.META.get(pid, {}).get("category", "proof")
+    if obligations == 0 and level == "proof":
+        level = "model_checking"   # nothing but bounded stand-ins ran: never report that as proof
     ev = {
-        "property_id": pid, "tier": tier, "seed": seed, "level": "proof",
+        "property_id": pid, "tier": tier, "seed": seed, "level": level,
         "coverage": {
             "obligations": obligations, "discharged": discharged,
+            "bounded_obligations": bounded_obl, "bounded_obligations_held": bounded_ok,
+            "evaluations": obligations + bounded_obl, "distinct_nontrivial": len(distinct),
+            "rule": "one evaluation = one verification condition decided by CBMC for all inputs of its unit (unbounded units count under obligations/discharged, "
+                    "bounded stand-ins under bounded_obligations); distinct = distinct (harness, function, obligation text)",
             "checker_cmd": "; ".join(sorted(set(c.split(" --json-ui")[0] for c in cmds)))[:1500] or "static facts only",
             "trusted_base": sorted(set(trusted)),
             "functions_under_contract": sorted(set(functions)),
